@@ -36,6 +36,7 @@ EXPLANATION = (
     "evaluator merges two leg tables by the tree's survival rule (symbolic case "
     "analysis); (TRACK recompute) reset, refill and flag of each recomputed total run "
     "under the same conditions. "
+    'Round 7: (ORIENT) the left/right orientation of a node is a function of the node sets only; (KEYS, shared with C02) no ad-hoc cached figure in a per-node entry. '
 )
 ASSUMPTIONS = (
     "a tree that carries sliced indices has been through remove_ind and is therefore tracked",
